@@ -141,7 +141,7 @@ def sort_name(path):
 
 
 def gen_tree(r, bs=4096, nfiles=8, ndirs=3, hostile=False, specials=True, xattrs=False, hardlinks=False,
-             big=False, ids=None, bigdir=0, bigdir_dense=False, duptails=0, tiny=0):
+             big=False, ids=None, bigdir=0, bigdir_dense=False, duptails=0, tiny=0, samenames=False):
     """returns list of Entry (directories before their children)"""
     ents = []
     ids = ids or [0, 0, 1, 1000, 65534, 70000, 0xFFFFFFFE]
@@ -192,6 +192,18 @@ def gen_tree(r, bs=4096, nfiles=8, ndirs=3, hostile=False, specials=True, xattrs
                 e = Entry(p, FILE, content=blk * k + (tailb if suffix == b".2" else b""), **common())
                 ents.append(e)
                 files.append(e)
+    if samenames:
+        # the same base name at two neighbouring levels: a directory containing an entry named like itself, and a file name that occurs
+        # both in a directory and in its parent (what a recursive walk hands out one after the other depends on readdir order)
+        for dpath in [x for x in dirs if x][:4]:
+            base = dpath.rsplit(b"/", 1)[-1]
+            parent = dpath.rsplit(b"/", 1)[0] if b"/" in dpath else b""
+            for pth in (dpath + b"/" + base, dpath + b"/Makefile", (parent + b"/" if parent else b"") + b"Makefile"):
+                if pth not in used:
+                    used.add(pth)
+                    e = Entry(pth, FILE, content=_compressible(r, r.choice([0, 10, 300])), **common())
+                    ents.append(e)
+                    files.append(e)
     if tiny:
         # many files below 512 bytes (own blocks with -T / DONT_FRAGMENT, tiny last fragment blocks)
         for _ in range(tiny):
